@@ -479,5 +479,5 @@ func TestC16(t *testing.T) {
 	if !complete {
 		return
 	}
-	c16Sub.rapidCheck(t, pickTier(2500, 20000), c16Gen)
+	c16Sub.rapidCheck(t, pickTier(2500, 40000), c16Gen)
 }
